@@ -25,7 +25,7 @@ var (
 		KUint32, KUint64, KIntSlice, KIntPtr, KUint8Slice, KFloat32, KFloat64, KFloatSlice, KDuration, KDurSlice, KDurPtr, KMapSS, KMapSI, KMapIS, KMapFS,
 		KUpper, KUpperSlice, KTri, KValid}
 	FlagKinds = []Kind{KBool, KBoolSlice, KBoolPtr}
-	FuncKinds = []Kind{KFunc0, KFuncS, KFuncI, KFunc0E, KFuncSE}
+	FuncKinds = []Kind{KFunc0, KFuncS, KFuncI, KFunc0E, KFuncSE, KFuncSS}
 	AllKinds  = append(append(append([]Kind{}, AllArgKinds...), FlagKinds...), FuncKinds...)
 )
 
@@ -1114,7 +1114,7 @@ func (g *argvGen) unknownLong() string {
 	}
 	// names that fields marked no-flag would declare
 	cands = append(cands, g.d.NoFlagNames()...)
-	cands = append(cands, "unknown", "zz", "no-such")
+	cands = append(cands, "unknown", "zz", "no-such", "100%", "%s", "%d%%", "help?")
 	sortStrings(cands)
 	var ok []string
 	for _, c := range cands {
